@@ -209,7 +209,7 @@ fn hex(b: &[u8]) -> String {
 
 fn main() {
     let ctx = Ctx::from_env("C06");
-    ctx.rule("universes: (a) a valid file per mode x format version {14,7,5} under every single line-level edit (delete, duplicate, swap two lines, truncate at every byte, splice each of 18 corner tokens incl. NaN/inf/1e999/limit+1 into every numeric field) and every ordered pair of core edits (delete, duplicate, splice 5 corners) [thorough: every pair of all edits on v14]; (b) every byte prefix of those files in UTF-8, UTF-8+BOM, UTF-16LE, UTF-16BE; (c) every single-byte substitution from {00,80,C3,FF,'[',','} at every offset; (d) all byte strings of length <= 2 and all strings of length <= 5 over a 10-symbol structural alphabet, raw and inside [HitObjects] / [TimingPoints]; (e) all permutations of <= 6 hit-object lines with duplicate and out-of-order times, hit sound = f(x); (f) all permutations of <= 6 control-point lines (uninherited, inherited, kiai) with repeated and out-of-order times. Oracle: worker survives (no panic / abort / hang), Ok or io::Error; on Ok the map is well-formed (order, one sound per object and the right one, control points strictly ordered, all floats finite and inside the documented clamps), from_bytes == from_str == from_path; non-trivial = decoded Ok");
+    ctx.rule("universes: (a) a valid file per mode x format version {14,7,5} under every single line-level edit (delete, duplicate, swap two lines, truncate at every byte, splice each of 18 corner tokens incl. NaN/inf/1e999/limit+1 into every numeric field) and every ordered pair of core edits (delete, duplicate, splice 5 corners) [thorough: every pair of all edits on v14]; (b) every byte prefix of those files in UTF-8, UTF-8+BOM, UTF-16LE, UTF-16BE; (c) every single-byte substitution from {00,80,C3,FF,'[',','} at every offset; (d) all byte strings of length <= 2 and all strings of length <= 5 over a 10-symbol structural alphabet, raw and inside [HitObjects] / [TimingPoints]; (e) all permutations of <= 6 hit-object lines with duplicate and out-of-order times, hit sound = f(x), and of 6 lines with 6 distinct times (mania with hold notes, osu!); (f) all permutations of <= 6 control-point lines (uninherited, inherited, kiai) with repeated and out-of-order times. Oracle: worker survives (no panic / abort / hang), Ok or io::Error; on Ok the map is well-formed (order, one sound per object and the right one, control points strictly ordered, all floats finite and inside the documented clamps), from_bytes == from_str == from_path; non-trivial = decoded Ok");
     ctx.assume("from_path is compared on every 16th case of (a)-(d) and on every case of (e) (temp file under /verif/target)");
 
     let quick = ctx.quick();
@@ -301,6 +301,27 @@ fn main() {
                 oracle(l, t.as_bytes(), true, true, &|| format!("permutation {:?}\n--- text ---\n{t}", perms[idx as usize]));
             });
         }
+    }
+    // (e-distinct) six lines with six distinct times in every order, mania and osu! (mania files go through a second, legacy
+    // sort whose behaviour depends on the arrival order)
+    let dtimes = [6000, 5000, 2000, 3000, 0, 7000];
+    for mode in [3u8, 0] {
+        let perms = permutations(6);
+        let name = format!("e-permutations-distinct-times/mode{mode}/n6");
+        ctx.universe_isolated(&name, perms.len() as u64, 2.0, 1024, |idx, l| {
+            let mut t = format!("osu file format v14\n[General]\nMode: {mode}\n[Difficulty]\nCircleSize:4\n[TimingPoints]\n0,500,4,2,0,60,1,0\n[HitObjects]\n");
+            for &k in &perms[idx as usize] {
+                let x = 10 * k;
+                let s = SOUND_OF[k];
+                let time = dtimes[k];
+                match (k % 3, mode) {
+                    (1, 3) => t.push_str(&format!("{x},100,{time},128,{s},{}:0:0:0:0:\n", time + 300)),
+                    (1, _) => t.push_str(&format!("{x},100,{time},2,{s},L|{}:100,1,50\n", x + 50)),
+                    _ => t.push_str(&format!("{x},100,{time},1,{s},0:0:0:0:\n")),
+                }
+            }
+            oracle(l, t.as_bytes(), true, mode != 3, &|| format!("permutation {:?}\n--- text ---\n{t}", perms[idx as usize]));
+        });
     }
     // (e') the same with fractional start times that differ but round (to even / half up) onto the same or onto swapped
     // milliseconds: the sort must still order by the actual time
